@@ -76,5 +76,21 @@ Theorem C04_reuse_after_end : forall t fresh m k id,
 Proof. exact reuse_after_end. Qed.
 
 (* the magic cookie is the RFC 3261 one *)
+(* "at any time relative to the life of the transaction": the client transaction is in the table before its request is handed to the
+   transport, so an answer that comes back while the caller is still inside send is handed to it; registered afterwards, the same
+   answer would be dropped as an orphan *)
+Theorem C04_registers_before_send_guard : tsx_client_registers_before_send = true.
+Proof. reflexivity. Qed.
+
+Theorem C04_response_during_send_delivered : forall k id r,
+  tsx_client_registers_before_send = true -> key_of r = Some k -> m_is_request r = false ->
+  snd (run (client_send_events k id [r] [])) = [(None, 1); (Some (ToTsx id true), 1)].
+Proof. exact early_response_delivered. Qed.
+
+Theorem C04_late_registration_refuted : forall (k : key) r,
+  key_of r = Some k -> m_is_request r = false ->
+  fst (step ([], 1000) (Recv r)) = ([], 1001) /\ snd (step ([], 1000) (Recv r)) = Some Orphan.
+Proof. exact late_registration_drops. Qed.
+
 Theorem C04_cookie : branch_cookie = B"z9hG4bK".
 Proof. reflexivity. Qed.
